@@ -189,6 +189,8 @@ type World struct {
 	atPoint          bool
 	hasOnef          bool
 	pointArmed       bool
+	holdArmed        bool
+	wtSmall          bool
 	injectComposite  bool    // INJX: after the one-frame commit also end the long reader and run an application PASSIVE checkpoint
 	wtConn           *sql.DB // connection of the open spilled write transaction (ops WT+ / WT- / WTR)
 	wtx              *sql.Tx
@@ -713,7 +715,9 @@ func (w *World) appOp(rc *Recorder, op string) error {
 		}
 		v := int64(w.version + 1)
 		var qs []string
-		if w.injectVersioned {
+		if w.wtSmall && w.hasOnef {
+			qs = []string{"UPDATE onef SET n=n+1"}
+		} else if w.injectVersioned {
 			qs = append(append([]string{}, versionedTx...), "UPDATE big SET ver=?1, pad=randomblob(length(pad))")
 		} else {
 			qs = []string{"UPDATE t SET v=randomblob(length(v))", "UPDATE u SET v=randomblob(length(v))", "INSERT INTO t(v) VALUES (randomblob(3000))", "UPDATE ver SET n=?1"}
@@ -1132,6 +1136,16 @@ var ckptWindowScripts = func() (l [][2]string) {
 		l = append(l, [2]string{"passive-barrier-window",
 			fmt.Sprintf("OPEN S W W SW INJ=%d CK-PASSIVE SW W SW", k)})
 	}
+	// error exit after the PRAGMA: a commit lands between the pre-checkpoint copy and the PRAGMA, and the
+	// sequence bump fails busy (the application holds the write lock with a one-page transaction): the
+	// call returns an error; the next sync must not lose the commit (TRUNCATE: fixed in /repo 67a6f3f —
+	// syncedToWALEnd stayed set and the truncated WAL was taken for an expected one)
+	for _, mode := range []string{"TRUNCATE", "PASSIVE", "FULL", "RESTART"} {
+		for _, k := range []int{4, 5} {
+			l = append(l, [2]string{"ckpt-error-exit-after-pragma:" + mode,
+				fmt.Sprintf("OPEN S W W SW INJ=%d INJW=pt.ckpt.bump CK-%s WT- S SW W SW", k, mode)})
+		}
+	}
 	// the long-running read transaction must survive the end of the call that acquired it (every
 	// litestream op of this harness runs under its own context, cancelled when the op returns): an
 	// unsynced commit, an application checkpoint, another commit, then an acknowledged sync
@@ -1172,7 +1186,7 @@ func runScriptAs(rc *Recorder, dir string, rng *rand.Rand, script, cfgs, scenari
 	defer func() { w.closeReader(); w.closeWT(false); w.closeWTConn(); w.app.Close() }()
 	w.scenario = scenario
 	w.scripted = true
-	if strings.Contains(script, "INJP=") {
+	if strings.Contains(script, "INJP=") || strings.Contains(script, "INJW=") {
 		// a second one-page table, so that two injected one-frame commits touch different pages
 		if _, err := w.app.Exec("CREATE TABLE onef(id INTEGER PRIMARY KEY, n INTEGER)"); err != nil {
 			return err
@@ -1205,6 +1219,7 @@ func runScriptAs(rc *Recorder, dir string, rng *rand.Rand, script, cfgs, scenari
 	}
 	nextInject := 0
 	nextPoint := false
+	nextHold := false
 	defer func() { litestream.VerifTracePoint = nil }()
 	for _, op := range toks {
 		switch {
@@ -1224,6 +1239,28 @@ func runScriptAs(rc *Recorder, dir string, rng *rand.Rand, script, cfgs, scenari
 				w.closeLitestream(rc)
 				w.ldb = nil
 			}
+			continue
+		case strings.HasPrefix(op, "INJW="): // at a verifTrace point of the NEXT litestream op: open a spilled write transaction (as WT+), so that litestream's next write fails busy
+			pt := strings.TrimPrefix(op, "INJW=")
+			prevHook := litestream.VerifTracePoint
+			fired := false
+			litestream.VerifTracePoint = func(o any, ev string) {
+				if prevHook != nil {
+					prevHook(o, ev)
+				}
+				if ev != pt || fired || !w.holdArmed {
+					return
+				}
+				fired = true
+				res := "ok"
+				w.wtSmall = true // hold the write lock with a transaction that touches one page of table onef only
+				if err := w.appOp(rc, "WT+"); err != nil {
+					res = "busy"
+				}
+				w.wtSmall = false
+				w.trace = append(w.trace, fmt.Sprintf("WT+@%s:%s", ev, res))
+			}
+			nextHold = true
 			continue
 		case strings.HasPrefix(op, "INJP="): // composite injection (as INJX) at a verifTrace point of the NEXT litestream op, e.g. INJP=pt.ckpt.bump
 			w.injectPoint = strings.TrimPrefix(op, "INJP=")
@@ -1268,8 +1305,12 @@ func runScriptAs(rc *Recorder, dir string, rng *rand.Rand, script, cfgs, scenari
 		if w.pointArmed {
 			nextPoint = false
 		}
+		w.holdArmed = nextHold && !isAppOp(op)
+		if w.holdArmed {
+			nextHold = false
+		}
 		w.step(rc, op)
-		w.pointArmed = false
+		w.pointArmed, w.holdArmed = false, false
 	}
 	if w.ldb == nil {
 		return nil
